@@ -12,6 +12,7 @@ import (
 
 	"github.com/gokrazy/rsync/rsyncd"
 	"github.com/gokrazy/rsync/verifharness/drv"
+	"github.com/gokrazy/rsync/verifharness/fstree"
 	"github.com/gokrazy/rsync/verifharness/wirekit"
 )
 
@@ -32,6 +33,9 @@ type deltaScn struct {
 	Slack   int    `json:"slack"`
 	Edits   int    `json:"edits"`
 	Bounded bool   `json:"bounded"` // for gen cases: apply the bound
+	// RealGen: the request (sum head and block checksums) is the one the REAL generator (internal/receiver) sends for
+	// this basis and this new file length, captured from a receiver session, instead of the reference-computed one
+	RealGen bool `json:"realgen"`
 }
 
 // dgen describes concrete-domain data (too large for TLC to enumerate).
@@ -301,6 +305,7 @@ func compressRefs(toks []deltaTok) []deltaTok {
 type deltaItem struct {
 	basis, target []byte
 	blk, s2       int32
+	realgen       bool
 	obs           *deltaObs
 }
 
@@ -373,7 +378,7 @@ func prepareDelta(s *deltaScn, raw []byte) *deltaItem {
 		blk = int32(s.Gen.P) // the generator's own block length
 	}
 	obs.TLen, obs.BLen, obs.Blk, obs.S2 = len(target), len(basis), blk, s.S2
-	return &deltaItem{basis: basis, target: target, blk: blk, s2: s.S2, obs: obs}
+	return &deltaItem{basis: basis, target: target, blk: blk, s2: s.S2, realgen: s.RealGen, obs: obs}
 }
 
 func finishObs(obs *deltaObs) {
@@ -473,7 +478,7 @@ func senderSession(w *workerCtx, items []*deltaItem) error {
 		}
 	}
 	for k, it := range items {
-		if err := senderOne(p, cs, int32(k), it); err != nil {
+		if err := senderOne(w, p, cs, int32(k), it); err != nil {
 			it.obs.Err = err.Error()
 			return err
 		}
@@ -504,9 +509,92 @@ func senderSession(w *workerCtx, items []*deltaItem) error {
 	return nil
 }
 
-func senderOne(p *drv.Peer, cs *drv.ClientSide, index int32, it *deltaItem) error {
+// realSums runs a real receiver (the client, -rt) over a destination holding basis as "f", announces a new
+// version of tlen bytes and returns the request the real generator sends for it.  The session is then completed
+// with the whole file as literal data.
+func realSums(w *workerCtx, seed int32, basis, target []byte) (wirekit.SumHead, []wirekit.BlockSum, error) {
+	var head wirekit.SumHead
+	var sums []wirekit.BlockSum
+	dest := filepath.Join(w.dir, "gendst")
+	if err := fstree.Reset(dest); err != nil {
+		return head, nil, err
+	}
+	defer os.RemoveAll(dest)
+	fpath := filepath.Join(dest, "f")
+	if err := os.WriteFile(fpath, basis, 0o644); err != nil {
+		return head, nil, err
+	}
+	old := time.Unix(1_000_000, 0)
+	os.Chtimes(fpath, old, old)
+	p, err := drv.StartClientReceiver([]string{"-rt"}, dest, nil, -1, -1, nil)
+	if err != nil {
+		return head, nil, err
+	}
+	defer p.End.Close()
+	if err := p.ServerHandshake(seed); err != nil {
+		return head, nil, fmt.Errorf("generator session: handshake: %w", err)
+	}
+	fl := &wirekit.FileList{Entries: []wirekit.Entry{
+		{Name: ".", Size: 4096, Mtime: 2_000_000, Mode: wirekit.SIFDIR | 0o755, Flags: wirekit.XTopDir},
+		{Name: "f", Size: int64(len(target)), Mtime: 2_000_000, Mode: wirekit.SIFREG | 0o644},
+	}}
+	p.Out.EncodeList(fl, wirekit.ListOpts{}, wirekit.NoCompression)
+	if p.Out.Err != nil {
+		return head, nil, p.Out.Err
+	}
+	got := false
+	rs := &wirekit.RefSender{In: p.In, Out: p.Out, Seed: seed}
+	rs.Answer = func(req *wirekit.Request) (*wirekit.Answer, error) {
+		if req.Idx != 1 || got {
+			return nil, fmt.Errorf("generator session: unexpected request for index %d", req.Idx)
+		}
+		got = true
+		head, sums = req.Head, req.Sums
+		return wirekit.WholeFile(seed, req.Idx, target, 0), nil
+	}
+	srvErr := make(chan error, 1)
+	go func() {
+		err := rs.Serve()
+		if err == nil {
+			err = p.Finish()
+		}
+		srvErr <- err
+	}()
+	select {
+	case err := <-p.Done:
+		if err != nil {
+			return head, nil, fmt.Errorf("generator session: receiver: %v", err)
+		}
+	case <-idleAfter(60 * time.Second):
+		return head, nil, fmt.Errorf("generator session did not finish")
+	}
+	if err := <-srvErr; err != nil {
+		return head, nil, fmt.Errorf("generator session: %v", err)
+	}
+	if !got {
+		return head, nil, fmt.Errorf("generator session: the file was not requested")
+	}
+	return head, sums, nil
+}
+
+func senderOne(w *workerCtx, p *drv.Peer, cs *drv.ClientSide, index int32, it *deltaItem) error {
 	basis, target, blk, s2, obs := it.basis, it.target, it.blk, it.s2, it.obs
-	head, sums := wirekit.Sums(cs.Seed, basis, blk, s2)
+	var head wirekit.SumHead
+	var sums []wirekit.BlockSum
+	if it.realgen {
+		var err error
+		if head, sums, err = realSums(w, cs.Seed, basis, target); err != nil {
+			return err
+		}
+		if head.S2 < 2 || head.S2 > 16 || head.Blk <= 0 || head.Count < 0 || head.Rem < 0 || head.Rem >= head.Blk ||
+			int64(head.Count)*int64(head.Blk) > int64(len(basis))+int64(head.Blk) {
+			return fmt.Errorf("generator session: unusable sum head %+v for a basis of %d bytes", head, len(basis))
+		}
+		blk, s2 = head.Blk, head.S2
+		obs.Blk, obs.S2 = blk, s2
+	} else {
+		head, sums = wirekit.Sums(cs.Seed, basis, blk, s2)
+	}
 	obs.Count, obs.Rem = head.Count, head.Rem
 	cs.Up.Int32(index)
 	cs.Up.SumHead(head)
